@@ -129,38 +129,50 @@ theorem chunkLen_facts (addr len : Nat) (h : 0 < len) :
   have := Nat.mod_lt addr (show 0 < 65536 by decide)
   omega
 
+/-- the upper address bits the reader has been told after the data records of one block -/
+def hiEnd (need : Bool) : Nat → Option Nat → Nat → Bytes → Option Nat
+  | 0, hi, _, _ => hi
+  | fuel + 1, hi, addr, data =>
+    if data = [] then hi else
+    hiEnd need fuel (if need then some (addr / 65536) else hi) (addr + chunkLen addr data.length) (data.drop (chunkLen addr data.length))
+
+/-- what the writer knows about the reader's address state -/
+def AddrInv (need : Bool) (hi : Option Nat) (st : RState) : Prop :=
+  (need = true → ∀ u, hi = some u → st.upper = u ∧ st.segBase = 0) ∧ (need = false → st.upper = 0 ∧ st.segBase = 0)
+
 theorem fold_writeGo (need : Bool) : ∀ (fuel : Nat) (hi : Option Nat) (addr : Nat) (data : Bytes) (st : RState),
     st.done = false → data.length ≤ fuel → addr + data.length ≤ 2 ^ 32 →
-    (need = true → ∀ u, hi = some u → st.upper = u ∧ st.segBase = 0) →
-    (need = false → st.upper = 0 ∧ st.segBase = 0 ∧ addr + data.length ≤ 65536) →
+    AddrInv need hi st → (need = false → addr + data.length ≤ 65536) →
     ∃ st', foldRecs (writeGo need fuel hi addr data) (some st) = some st'
-      ∧ st'.done = false ∧ st'.segs = (chunks fuel addr data).reverse ++ st.segs := by
+      ∧ st'.done = false ∧ st'.segs = (chunks fuel addr data).reverse ++ st.segs
+      ∧ AddrInv need (hiEnd need fuel hi addr data) st' := by
   intro fuel
   induction fuel with
   | zero =>
-    intro hi addr data st hd hl _ _ _
-    exact ⟨st, by simp [writeGo, foldRecs], hd, by simp [chunks]⟩
+    intro hi addr data st hd hl _ hinv _
+    exact ⟨st, by simp [writeGo, foldRecs], hd, by simp [chunks], by simpa [hiEnd] using hinv⟩
   | succ fuel ih =>
-    intro hi addr data st hd hl hb h1 h2
+    intro hi addr data st hd hl hb hinv h2
     by_cases hdata : data = []
     · subst hdata
-      exact ⟨st, by simp [writeGo, foldRecs], hd, by simp [chunks]⟩
+      exact ⟨st, by simp [writeGo, foldRecs], hd, by simp [chunks], by simpa [hiEnd] using hinv⟩
     · have hpos : 0 < data.length := List.length_pos_iff.mpr hdata
       obtain ⟨hn1, hn16, hnl, hnb⟩ := chunkLen_facts addr data.length hpos
       have hmod := Nat.mod_lt addr (show 0 < 65536 by decide)
       have htake : (data.take (chunkLen addr data.length)).length = chunkLen addr data.length := by
         rw [List.length_take]; omega
       have hdrop : (data.drop (chunkLen addr data.length)).length = data.length - chunkLen addr data.length := List.length_drop
-      simp only [writeGo, chunks, hdata, if_false]
+      simp only [writeGo, chunks, hiEnd, hdata, if_false]
       cases need with
       | false =>
-        obtain ⟨hu, hsb, hlim⟩ := h2 rfl
+        obtain ⟨hu, hsb⟩ := hinv.2 rfl
+        have hlim := h2 rfl
         simp only [Bool.false_and, Bool.false_eq_true, if_false, List.nil_append]
         rw [foldRecs_cons, step_data st (addr % 65536) _ hd (by rw [htake]; omega) hmod]
-        obtain ⟨st', hf, hd', hs'⟩ := ih hi (addr + chunkLen addr data.length) (data.drop (chunkLen addr data.length))
+        obtain ⟨st', hf, hd', hs', hi'⟩ := ih hi (addr + chunkLen addr data.length) (data.drop (chunkLen addr data.length))
           { st with segs := (st.upper * 65536 + st.segBase + addr % 65536, data.take (chunkLen addr data.length)) :: st.segs }
-          hd (by rw [hdrop]; omega) (by rw [hdrop]; omega) (by intro h; cases h) (fun _ => ⟨hu, hsb, by rw [hdrop]; omega⟩)
-        refine ⟨st', hf, hd', ?_⟩
+          hd (by rw [hdrop]; omega) (by rw [hdrop]; omega) ⟨(by intro h; cases h), fun _ => ⟨hu, hsb⟩⟩ (fun _ => by rw [hdrop]; omega)
+        refine ⟨st', hf, hd', ?_, hi'⟩
         rw [hs']
         have : st.upper * 65536 + st.segBase + addr % 65536 = addr := by
           rw [hu, hsb, Nat.mod_eq_of_lt (by omega)]; omega
@@ -172,24 +184,24 @@ theorem fold_writeGo (need : Bool) : ∀ (fuel : Nat) (hi : Option Nat) (addr : 
         · simp only [hne, if_true, List.singleton_append]
           rw [foldRecs_cons, step_ext st _ hd hhi, foldRecs_cons,
             step_data { st with upper := addr / 65536, segBase := 0 } (addr % 65536) _ hd (by rw [htake]; omega) hmod]
-          obtain ⟨st', hf, hd', hs'⟩ := ih (some (addr / 65536)) (addr + chunkLen addr data.length) (data.drop (chunkLen addr data.length))
+          obtain ⟨st', hf, hd', hs', hi'⟩ := ih (some (addr / 65536)) (addr + chunkLen addr data.length) (data.drop (chunkLen addr data.length))
             { st with upper := addr / 65536, segBase := 0,
                       segs := (addr / 65536 * 65536 + 0 + addr % 65536, data.take (chunkLen addr data.length)) :: st.segs }
             hd (by rw [hdrop]; omega) (by rw [hdrop]; omega)
-            (by intro _ u hu; simp only [Option.some.injEq] at hu; exact ⟨hu, rfl⟩) (by intro h; cases h)
-          refine ⟨st', hf, hd', ?_⟩
+            ⟨(by intro _ u hu; simp only [Option.some.injEq] at hu; exact ⟨hu, rfl⟩), (by intro h; cases h)⟩ (by intro h; cases h)
+          refine ⟨st', hf, hd', ?_, hi'⟩
           rw [hs']
           have : addr / 65536 * 65536 + addr % 65536 = addr := by omega
           simp [this]
         · have heq : hi = some (addr / 65536) := by simpa using hne
-          obtain ⟨hu, hsb⟩ := h1 rfl _ heq
+          obtain ⟨hu, hsb⟩ := hinv.1 rfl _ heq
           simp only [hne, Bool.false_eq_true, if_false, List.nil_append]
           rw [foldRecs_cons, step_data st (addr % 65536) _ hd (by rw [htake]; omega) hmod]
-          obtain ⟨st', hf, hd', hs'⟩ := ih (some (addr / 65536)) (addr + chunkLen addr data.length) (data.drop (chunkLen addr data.length))
+          obtain ⟨st', hf, hd', hs', hi'⟩ := ih (some (addr / 65536)) (addr + chunkLen addr data.length) (data.drop (chunkLen addr data.length))
             { st with segs := (st.upper * 65536 + st.segBase + addr % 65536, data.take (chunkLen addr data.length)) :: st.segs }
             hd (by rw [hdrop]; omega) (by rw [hdrop]; omega)
-            (by intro _ u hu'; simp only [Option.some.injEq] at hu'; exact ⟨by rw [← hu']; exact hu, hsb⟩) (by intro h; cases h)
-          refine ⟨st', hf, hd', ?_⟩
+            ⟨(by intro _ u hu'; simp only [Option.some.injEq] at hu'; exact ⟨by rw [← hu']; exact hu, hsb⟩), (by intro h; cases h)⟩ (by intro h; cases h)
+          refine ⟨st', hf, hd', ?_, hi'⟩
           rw [hs']
           have : st.upper * 65536 + st.segBase + addr % 65536 = addr := by rw [hu, hsb]; omega
           simp [this]
@@ -299,9 +311,9 @@ theorem readRecs_writeRecs (addr : Nat) (data : Bytes) (hb : addr + data.length 
   have hfold : ∀ recs, List.foldl (fun (acc : Option RState) r => acc.bind (fun st => stepRecord st r)) (some {}) recs
       = foldRecs recs (some {}) := fun _ => rfl
   rw [hfold, foldRecs_append]
-  obtain ⟨st', hf, hd', hs'⟩ := fold_writeGo (decide (addr + data.length - 1 > 65535)) data.length none addr data {} rfl (Nat.le_refl _) hb
-    (by intro _ u hu; cases hu)
-    (by intro hneed; refine ⟨rfl, rfl, ?_⟩; simp only [decide_eq_false_iff_not] at hneed; omega)
+  obtain ⟨st', hf, hd', hs', _⟩ := fold_writeGo (decide (addr + data.length - 1 > 65535)) data.length none addr data {} rfl (Nat.le_refl _) hb
+    ⟨(by intro _ u hu; cases hu), fun _ => ⟨rfl, rfl⟩⟩
+    (by intro hneed; simp only [decide_eq_false_iff_not] at hneed; omega)
   rw [hf, foldRecs_cons, step_eof st' hd']
   simp only [foldRecs, List.foldl_nil]
   rw [hs']
